@@ -418,6 +418,13 @@ def main(argv=None):
         traceback.print_exc()
         return 3
 
+    # builtin-model facts sampled against CPython (tested, not proved)
+    try:
+        cc = subprocess.run(["/venv/bin/python", str(VERIF / "tools" / "crosscheck.py"), "300" if tier == "quick" else "3000"],
+                            capture_output=True, text=True, timeout=300, env={**os.environ, "VERIF_SEED": str(seed)})
+        crosscheck = json.loads(cc.stdout.strip().splitlines()[-1]) if cc.stdout.strip() else {"error": cc.stderr[-500:]}
+    except Exception as e:  # pragma: no cover
+        crosscheck = {"error": repr(e)}
     # ------------------------------------------------------------------ verdict
     total = discharged = 0
     refuted, undecided, crashes = [], [], []
@@ -490,6 +497,8 @@ def main(argv=None):
     undecided = still_undecided
     min_obl = meta.get("min_obligations", 1)
     guard_fail = []
+    if crosscheck.get("failed") or crosscheck.get("error"):
+        guard_fail.append(f"builtin model cross-check against CPython failed: {crosscheck}")
     if total < min_obl and not undecided and not refuted:
         guard_fail.append(f"obligation count {total} < recorded minimum {min_obl}")
     for cr in ([] if (undecided or refuted) else canary_results):
@@ -553,6 +562,7 @@ def main(argv=None):
             "known_findings_printed": known_printed,
             "solver_disagreements": disagreements,
             "engine_notes": sorted(notes),
+            "builtin_model_crosscheck": crosscheck,
         },
         "assumptions": sorted(set(meta.get("assumptions", []))),
         "wall_s": round(wall, 2),
